@@ -45,6 +45,8 @@ import (
 	"tunnox-core/internal/cloud/factories"
 	"tunnox-core/internal/cloud/managers"
 	"tunnox-core/internal/cloud/repos"
+	"tunnox-core/internal/cloud/services"
+	clientsvc "tunnox-core/internal/cloud/services/client"
 	"tunnox-core/internal/core/idgen"
 	corelog "tunnox-core/internal/core/log"
 	"tunnox-core/internal/core/storage"
@@ -85,6 +87,10 @@ type Server struct {
 
 	cancel  context.CancelFunc
 	cfgRepo *repos.ClientConfigRepository
+	idm     *idgen.IDManager
+	csOnce  sync.Once
+	cs      *clientsvc.Service
+	csErr   error
 	mu      sync.Mutex
 	conns   []*Conn
 }
@@ -110,6 +116,7 @@ func NewServer(o Options) (*Server, error) {
 	}
 	s.Storage = st
 	idm := idgen.NewIDManager(st, ctx)
+	s.idm = idm
 	s.Repo = repos.NewRepository(st)
 	s.cfgRepo = repos.NewClientConfigRepository(s.Repo)
 
@@ -455,6 +462,52 @@ func (s *Server) ExpireCredentials(clientID int64) error {
 	return s.cfgRepo.UpdateConfig(cfg)
 }
 
+// clientService is a second instance of the real client service (services/client.Service) over
+// the same repositories and storage as the cloud control's own; BuiltinCloudControl does not
+// export its instance, and the management operations below live only there.
+func (s *Server) clientService() (*clientsvc.Service, error) {
+	s.csOnce.Do(func() {
+		sp, err := services.NewSimpleStatsProvider(s.Storage, s.Ctx)
+		if err != nil {
+			s.csErr = err
+			return
+		}
+		s.cs = clientsvc.NewService(repos.NewClientConfigRepository(s.Repo), repos.NewClientStateRepository(s.Ctx, s.Storage),
+			repos.NewClientTokenRepository(s.Ctx, s.Storage), repos.NewClientRepository(s.Repo), repos.NewPortMappingRepo(s.Repo),
+			s.idm, sp, s.Ctx)
+	})
+	return s.cs, s.csErr
+}
+
+// BindToUser binds the client to a user through the real service (Service.BindToUser: sets
+// UserID, clears the expiry date, anonymous -> registered).
+func (s *Server) BindToUser(clientID int64, userID string) error {
+	cs, err := s.clientService()
+	if err != nil {
+		return err
+	}
+	return cs.BindToUser(clientID, userID)
+}
+
+// ExtendExpiration is Service.ExtendExpiration ("manually extend validity"; works for bound and
+// unbound clients; 0 clears the date, a negative number of days puts it into the past).
+func (s *Server) ExtendExpiration(clientID int64, days int) error {
+	cs, err := s.clientService()
+	if err != nil {
+		return err
+	}
+	return cs.ExtendExpiration(clientID, days)
+}
+
+// CredentialState reads the stored client record: bound to a user? expiry date set and in the past?
+func (s *Server) CredentialState(clientID int64) (bound, expiryPast bool, err error) {
+	cfg, err := s.cfgRepo.GetConfig(clientID)
+	if err != nil || cfg == nil {
+		return false, false, fmt.Errorf("srvkit: no stored config for client %d: %v", clientID, err)
+	}
+	return cfg.UserID != "", cfg.ExpiresAt != nil && time.Now().After(*cfg.ExpiresAt), nil
+}
+
 // Kick is SessionManager.KickOldControlConnection.
 func (s *Server) Kick(clientID int64, newConnID string) {
 	s.SM.KickOldControlConnection(clientID, newConnID)
@@ -491,6 +544,8 @@ type ConnView struct {
 	Authd     bool  // ControlConnection.IsAuthenticated()
 	ClientID  int64 // ControlConnection.GetClientID()
 	Closed    bool  // transport closed flag
+	InfoFound bool  // SessionManager.GetStreamConnectionInfo finds it
+	ClientOf  int64 // SessionManager.GetClientIDByConnectionID
 }
 
 // LookupView is the result of a lookup by client id.
@@ -504,6 +559,7 @@ type LookupView struct {
 // Projection is the observable registry state (DESIGN.md C07 "full projection").
 type Projection struct {
 	Lookup        map[int64]LookupView
+	LookupIface   map[int64]LookupView // GetControlConnectionInterface
 	Conns         map[string]ConnView
 	Authenticated []LookupView // ListAuthenticated, sorted by ConnID
 	SessionList   []string     // ids returned by SessionManager.ListConnections, sorted
@@ -519,6 +575,8 @@ func (s *Server) View(c *Conn) ConnView {
 		v.InControl, v.Authd, v.ClientID = true, cc.IsAuthenticated(), cc.GetClientID()
 	}
 	v.InTunnel = s.SM.GetTunnelConnectionByConnID(c.ID) != nil
+	_, v.InfoFound = s.SM.GetStreamConnectionInfo(c.ID)
+	v.ClientOf = s.SM.GetClientIDByConnectionID(c.ID)
 	return v
 }
 
@@ -531,11 +589,24 @@ func (s *Server) LookupView(clientID int64) LookupView {
 	return LookupView{Found: true, ConnID: cc.GetConnID(), ClientID: cc.GetClientID(), Authd: cc.IsAuthenticated()}
 }
 
+// LookupIfaceView projects GetControlConnectionInterface(clientID), the lookup the HTTP / domain
+// proxy layer uses. Found is exactly the caller's test `conn != nil` on the returned interface
+// value (an interface wrapping a nil pointer is "found"); the other fields come from the
+// interface's methods.
+func (s *Server) LookupIfaceView(clientID int64) LookupView {
+	ci := s.SM.GetControlConnectionInterface(clientID)
+	if ci == nil {
+		return LookupView{}
+	}
+	return LookupView{Found: true, ConnID: ci.GetConnID(), ClientID: ci.GetClientID(), Authd: ci.IsAuthenticated()}
+}
+
 // Project takes the full projection for the given client ids and all accepted connections.
 func (s *Server) Project(clients []int64) Projection {
-	p := Projection{Lookup: map[int64]LookupView{}, Conns: map[string]ConnView{}}
+	p := Projection{Lookup: map[int64]LookupView{}, LookupIface: map[int64]LookupView{}, Conns: map[string]ConnView{}}
 	for _, id := range clients {
 		p.Lookup[id] = s.LookupView(id)
+		p.LookupIface[id] = s.LookupIfaceView(id)
 	}
 	for _, c := range s.Conns() {
 		p.Conns[c.ID] = s.View(c)
